@@ -1,22 +1,55 @@
 package harness
 
 import (
+	"flag"
 	"fmt"
+	"os"
 	"testing"
+	"time"
 )
 
+var (
+	fWorker = flag.Bool("mcx.worker", false, "run as exploration worker")
+	fCur    = flag.String("mcx.cur", "", "worker: file that receives the prefix being executed")
+	fProp   = flag.String("mcx.prop", "", "property to check")
+	fTier   = flag.String("mcx.tier", "quick", "quick|thorough")
+	fSeed   = flag.Int("mcx.seed", 0, "seed (rotates subtree order only)")
+	fOut    = flag.String("mcx.out", "/verif", "verif root (evidence/, replays/, known_findings.json)")
+	fDir    = flag.String("mcx.dir", "/verif/.build", "scratch directory")
+	fBudget = flag.Duration("mcx.budget", 0, "wall-clock budget for the exploration")
+	fJobs   = flag.Int("mcx.workers", 0, "worker processes (default: all cores)")
+	fReplay = flag.String("mcx.replay", "", "replay file to execute")
+)
+
+func TestWorker(t *testing.T) {
+	if !*fWorker {
+		t.Skip("worker mode only")
+	}
+	WorkerMain(t, *fCur)
+}
+
+func TestCheck(t *testing.T) {
+	if *fProp == "" {
+		t.Skip("no property")
+	}
+	exe, _ := os.Executable()
+	c := &CheckCtx{Prop: *fProp, Tier: *fTier, Seed: *fSeed, Exe: exe, Dir: *fDir, OutDir: *fOut, Budget: *fBudget, Workers: *fJobs}
+	rc := RunCheck(c)
+	os.Stdout.Sync()
+	os.Exit(rc)
+}
+
 func TestSmoke(t *testing.T) {
+	if *fWorker || *fProp != "" {
+		t.Skip()
+	}
 	s := K1(&Scenario{Name: "smoke", Horizon: 1500 * ms})
 	s.Insts = []InstSpec{{ID: "A"}, {ID: "B"}}
 	s.Script = []Item{{At: 1 * ms, Actor: "a", Do: "start", Inst: "A"}, {At: 3 * ms, Actor: "b", Do: "start", Inst: "B"}}
-	r := RunOnce(t, s, nil, true)
-	for _, c := range r.Chosen {
-		fmt.Println(c)
+	t0 := time.Now()
+	var r *Result
+	for i := 0; i < 200; i++ {
+		r = RunOnce(t, s, nil, false)
 	}
-	fmt.Println("steps", r.Steps, "stuck", r.Stuck, "div", r.Diverged, "hash", r.Hash)
-	for _, e := range r.Trace {
-		if e.K != "q" {
-			fmt.Printf("%v %s %s %s %s %s\n", e.T, e.K, e.I, e.Op, e.S, e.S2)
-		}
-	}
+	fmt.Println("200 runs", time.Since(t0), "steps", r.Steps, "stuck", r.Stuck, "div", r.Diverged, "hash", r.Hash)
 }
